@@ -129,6 +129,20 @@ theorem whileLoop_step {σ} (cond : σ → Bool) (body : σ → M σ) (fuel : Na
     (hb : body s = .ok s') : whileLoop cond body (fuel + 1) s = whileLoop cond body fuel s' := by
   simp [whileLoop, h, hb]
 
+theorem getItem_ok {α} (xs : List Int) (i : Int) (k : Int → M α) (h : 0 ≤ i ∧ i < (xs.length : Int)) :
+    getItem xs i k = k (xs.getD i.toNat 0) := by
+  have h1 : ¬ i < 0 := by omega
+  simp [getItem, normIndex, len, h1, h]
+
+theorem setItem_ok {α} (xs : List Int) (i v : Int) (k : List Int → M α) (h : 0 ≤ i ∧ i < (xs.length : Int))
+    (hv : 0 ≤ v ∧ v < 256) : setItem xs i v k = k (xs.set i.toNat v) := by
+  have h1 : ¬ i < 0 := by omega
+  simp [setItem, normIndex, len, h1, h, hv]
+
+theorem zeros_ok {α} (n : Nat) (k : List Int → M α) : zeros (n : Int) k = k (List.replicate n 0) := by
+  have h1 : ¬ ((n : Int) < 0) := by omega
+  simp [zeros, h1]
+
 theorem len_map_ofNat (bs : List Nat) : len (bs.map Int.ofNat) = (bs.length : Int) := by
   simp [len]
 
